@@ -599,6 +599,11 @@ func (env *SpecEnv) call(x *SCall) Val {
 		case "held":
 			// held(mutexExpr) -> lock mode != none (static approximation)
 			return spec1(True)
+		case "closed":
+			// closed(ch): the channel has been closed
+			cv := env.eval(x.Args[0])
+			h := ex.chanHeap("closed", SBool)
+			return spec1(Select(env.st.get(h), cv.L[0]))
 		}
 		// user predicate
 		if pd, ok := ex.P.db.Preds[x.Fun]; ok {
@@ -698,6 +703,8 @@ func (env *SpecEnv) parseType(s string) types.Type {
 type targetLoc struct {
 	heaps []*HeapInfo
 	idx   []Term
+	// rng: for elems(s) the element range [off, off+len) of the row that may change
+	rng []Term
 }
 
 func (env *SpecEnv) evalLocs(e SExpr) []targetLoc {
@@ -710,7 +717,7 @@ func (env *SpecEnv) evalLocs(e SExpr) []targetLoc {
 			if gf == nil {
 				sfail("unknown ghost field %s", x.Name)
 			}
-			return []targetLoc{{[]*HeapInfo{env.ghostHeap(gf)}, []Term{refOf(base)}}}
+			return []targetLoc{{[]*HeapInfo{env.ghostHeap(gf)}, []Term{refOf(base)}, nil}}
 		}
 		p, ok := under(base.T).(*types.Pointer)
 		if !ok {
@@ -726,7 +733,7 @@ func (env *SpecEnv) evalLocs(e SExpr) []targetLoc {
 			loc.Path += "." + f
 		}
 		hs := ex.leafHeaps(loc.Fam, loc.Root, loc.Path, ft, ex.pathKey(loc, loc.RootT))
-		return []targetLoc{{hs, loc.Idx}}
+		return []targetLoc{{hs, loc.Idx, nil}}
 	case *SIndex:
 		base := env.eval(x.X)
 		i := env.evalInt(x.I)
@@ -738,7 +745,7 @@ func (env *SpecEnv) evalLocs(e SExpr) []targetLoc {
 		if isStruct(sl.Elem()) {
 			fam = "E"
 		}
-		return []targetLoc{{ex.leafHeaps(fam, typeName(sl.Elem()), "", sl.Elem(), ""), []Term{base.L[0], Add(base.L[1], i)}}}
+		return []targetLoc{{ex.leafHeaps(fam, typeName(sl.Elem()), "", sl.Elem(), ""), []Term{base.L[0], Add(base.L[1], i)}, nil}}
 	case *SCall:
 		switch x.Fun {
 		case "elems":
@@ -751,7 +758,7 @@ func (env *SpecEnv) evalLocs(e SExpr) []targetLoc {
 			if isStruct(sl.Elem()) {
 				fam = "E"
 			}
-			return []targetLoc{{ex.leafHeaps(fam, typeName(sl.Elem()), "", sl.Elem(), ""), []Term{base.L[0]}}}
+			return []targetLoc{{ex.leafHeaps(fam, typeName(sl.Elem()), "", sl.Elem(), ""), []Term{base.L[0]}, []Term{base.L[1], base.L[2]}}}
 		case "obj":
 			base := env.eval(x.Args[0])
 			p, ok := under(base.T).(*types.Pointer)
@@ -759,7 +766,7 @@ func (env *SpecEnv) evalLocs(e SExpr) []targetLoc {
 				sfail("obj of non-pointer")
 			}
 			loc := ex.ptrLoc(base)
-			return []targetLoc{{ex.leafHeaps(loc.Fam, loc.Root, loc.Path, p.Elem(), ""), loc.Idx}}
+			return []targetLoc{{ex.leafHeaps(loc.Fam, loc.Root, loc.Path, p.Elem(), ""), loc.Idx, nil}}
 		}
 	}
 	sfail("unsupported modifies target")
